@@ -118,6 +118,10 @@ def run_job(job, rec):
         kind = KINDS[(c + job["j"]) % len(KINDS)]
         n = int(rng.choice([300, 1000, 4000, 20000], p=[0.3, 0.35, 0.25, 0.1]))
         base = gen(rng, kind, n)
+        mirrored = bool(rng.random() < 0.5)
+        if mirrored:
+            base = -base            # left-skewed versions of every shape
+            rec.count("cases:mirrored")
         sd0 = base.std()
         scale = 10.0 ** rng.uniform(-6, 6)
         shift_sd = float(rng.choice([0.0, 30.0, 1e3, -1e4, 1e6, -1e6]))
@@ -128,7 +132,7 @@ def run_job(job, rec):
             rec.count("cases:small_scale")
         for cls in (GaussianKDE, UnimodalPdf):
             name = cls.__name__
-            ctx = {"case": c, "estimator": name, "kind": kind, "n": n, "scale": scale, "shift_in_sd": shift_sd}
+            ctx = {"case": c, "estimator": name, "kind": kind, "mirrored": mirrored, "n": n, "scale": scale, "shift_in_sd": shift_sd}
             rec.context = ctx
             E = guarded(cls, x)
             if isinstance(E, Raised):
